@@ -70,7 +70,7 @@ func viewSubmitted(t *Task, rootLocal string) *SubView {
 			v.Binding = "redirect"
 		}
 	}
-	vals, ferr := formValues(s, !bodyFaultFired(t) || t.Msg.BodyFault == "short")
+	vals, ferr := formValues(s, !bodyFaultFired(t) || benignBody(t.Msg.BodyFault))
 	v.FormErr = ferr
 	v.Request, v.HasRequest = first(vals, "SAMLRequest")
 	v.Relay, _ = first(vals, "RelayState")
